@@ -24,6 +24,9 @@ func (expiryValidator) Validate(from, _ int64) error {
 	if from == fx.ExpiredMark {
 		return operationparser.ErrOperationExpired
 	}
+	if from == fx.EarlyMark {
+		return operationparser.ErrOperationEarly
+	}
 	return nil
 }
 
